@@ -3,6 +3,7 @@ use std::time::Instant;
 
 fn main() {
     std::panic::set_hook(Box::new(|_| {}));
+    let _ = over_budget(); // starts the process clock
     let args: Vec<String> = std::env::args().collect();
     if args.len() < 3 {
         eprintln!("usage: frmon <C01..C20> <quick|thorough> | frmon --replay <file>");
@@ -63,6 +64,31 @@ fn main() {
             println!("  options / extra: {}", opts);
         }
         println!("  (re-run the check that reported it for the verdict: ./check {} quick)", v["property"].as_str().unwrap_or("<id>"));
+        return;
+    }
+    if args[1] == "--f1-probe" {
+        // experiment: does the bug-compatible F1 model agree with the crate on the F1 class?
+        use frmon::{diff, gen, refm};
+        let n: usize = args.get(2).and_then(|s| s.parse().ok()).unwrap_or(4);
+        let mut g = gen::Gen::new(false);
+        let mut pats: Vec<_> = g.upto(n).into_iter().filter(|p| p.has_f1() && p.f1_loops_all_hard()).collect();
+        pats.extend(gen::products(&g.upto(3)).into_iter().filter(|p| p.has_f1() && p.f1_loops_all_hard()));
+        let texts = gen::texts(&gen::ALPHA_C01, 3);
+        let ctx = Ctx { prop: "F1".into(), tier: Tier::Quick, seed: 1, start: Instant::now(), known: frmon::known::Known::load() };
+        fn excl(p: &frmon::ast::Node) -> Option<&'static str> {
+            if !p.refs_exist() { Some("x") } else if !p.refs_closed() { Some("y") } else if p.has_bare_backref_cond() { Some("z") } else { None }
+        }
+        let cfg = diff::DiffCfg { prop: "F1", compare: diff::Compare::All, entry_points: false, ref_budget: refm::BUDGET, step_cap: Some(2_000_000), exclude: &excl, static_known: &diff::no_static_known, style: None, f1_compat: true };
+        let acc = diff::run(&ctx, &cfg, &pats, &texts);
+        println!("patterns {} evals {} violations {}", pats.len(), acc.evals, acc.n_violations);
+        if let Some(set) = acc.distinct_sets.get("violating-patterns") {
+            for p in set.iter().take(60) {
+                println!("  {}", p);
+            }
+        }
+        for v in acc.violations.iter().take(12) {
+            println!("  {} on {:?}@{}: expected {} observed {}", v.pattern, v.text, v.offset, v.expected, v.observed);
+        }
         return;
     }
     let prop = args[1].clone();
